@@ -177,7 +177,7 @@ func genCase(t *rapid.T) Case {
 	}
 	slot := rapid.IntRange(0, maxIt-1)
 	opGen := rapid.Custom(func(t *rapid.T) Op {
-		k := rapid.IntRange(0, 38).Draw(t, "kind")
+		k := rapid.IntRange(0, 40).Draw(t, "kind")
 		if huge && k <= 25 && rapid.IntRange(0, 3).Draw(t, "bulkier") != 0 {
 			k = 26 + k%13 // a list of single calls hardly moves a map of thousands: mostly bulk ops there
 		}
@@ -214,10 +214,16 @@ func genCase(t *rapid.T) Case {
 			return Op{K: OpCloseAll, Rev: rapid.Bool().Draw(t, "rev")}
 		case k <= 37:
 			return Op{K: OpChurn, Key: key.Draw(t, "key"), N: cnt(keys).Draw(t, "n"), I: rapid.IntRange(0, 3).Draw(t, "rounds"), Rev: rapid.Bool().Draw(t, "rev"), V: rapid.IntRange(0, 9).Draw(t, "v")}
-		default:
+		case k <= 38:
 			return Op{K: OpScan}
+		default:
+			return Op{K: OpRemAt, I: slot.Draw(t, "i")}
 		}
 	})
+	// one case in 6: growth-then-shrink phases (see genPhases)
+	if !huge && rapid.IntRange(0, 5).Draw(t, "family") == 5 {
+		return Case{Keys: keys, MaxIt: maxIt, Ops: genPhases(t, keys, maxIt, opGen)}
+	}
 	// rapid's SliceOf produces about 5 elements on average whatever the upper bound is; nesting the
 	// list (chunks of chunks, flattened and cut at maxLen) yields long histories as well and - unlike a
 	// drawn minimum length - still shrinks to a handful of ops, because no level enforces a minimum.
@@ -245,6 +251,47 @@ func genCase(t *rapid.T) Case {
 		ops = ops[:maxLen]
 	}
 	return Case{Keys: keys, MaxIt: maxIt, Ops: ops}
+}
+
+// genPhases: 1..4 phases of "grow, park, remove under the parked iterators, shrink, close, use". A phase adds a
+// drawn range (a few ... all keys of the alphabet: maps of tens and hundreds of entries), opens 1..3 iterators (more
+// if the case allows) and advances each a drawn distance, removes the entries some of them stand on (remat), shrinks
+// the map by 1..3 range removals of drawn extent (to a few entries, to half, to nothing - whatever the ranges
+// give) while those iterators stay where they are, closes the iterators (or keeps them for the next phase) and uses the
+// map again; drawn ops of the general generator are mixed in between the stages. Everything is a draw; every
+// list is executable.
+func genPhases(t *rapid.T, keys, maxIt int, opGen *rapid.Generator[Op]) []Op {
+	key := rapid.OneOf(rapid.IntRange(0, keys-1), rapid.IntRange(0, min(keys-1, 3)))
+	// extents: anything, a few, (nearly) all
+	ext := rapid.OneOf(rapid.IntRange(0, keys), rapid.IntRange(0, min(keys, 4)), rapid.IntRange(keys-keys/4, keys), rapid.IntRange(keys/3, keys))
+	few := rapid.SliceOfN(opGen, 0, 3)
+	var ops []Op
+	for ph, n := 0, rapid.IntRange(1, 4).Draw(t, "phases"); ph < n; ph++ {
+		ops = append(ops, Op{K: OpAddRange, Key: key.Draw(t, "growfrom"), N: ext.Draw(t, "grow"), Rev: rapid.Bool().Draw(t, "growrev"), V: rapid.IntRange(0, 9).Draw(t, "v")})
+		ops = append(ops, few.Draw(t, "mix0")...)
+		nit := rapid.OneOf(rapid.IntRange(1, min(3, maxIt)), rapid.IntRange(1, maxIt)).Draw(t, "parkers")
+		ops = append(ops, Op{K: OpIters, N: nit})
+		for i := 0; i < nit; i++ {
+			if d := rapid.OneOf(rapid.IntRange(0, keys), rapid.IntRange(0, 3)).Draw(t, "advance"); d > 0 {
+				ops = append(ops, Op{K: OpNextN, I: i, N: d})
+			}
+		}
+		for i := 0; i < nit; i++ {
+			if rapid.IntRange(0, 3).Draw(t, "under") != 0 {
+				ops = append(ops, Op{K: OpRemAt, I: i})
+			}
+		}
+		ops = append(ops, few.Draw(t, "mix1")...)
+		for j, m := 0, rapid.IntRange(1, 3).Draw(t, "shrinks"); j < m; j++ {
+			ops = append(ops, Op{K: OpRemRange, Key: key.Draw(t, "shrinkfrom"), N: ext.Draw(t, "shrink"), Rev: rapid.Bool().Draw(t, "shrinkrev")})
+		}
+		ops = append(ops, few.Draw(t, "mix2")...)
+		if rapid.IntRange(0, 3).Draw(t, "keepopen") != 0 {
+			ops = append(ops, Op{K: OpCloseAll, Rev: rapid.Bool().Draw(t, "closerev")})
+		}
+		ops = append(ops, few.Draw(t, "mix3")...)
+	}
+	return ops
 }
 
 func TestC10Rapid(t *testing.T) {
